@@ -521,10 +521,11 @@ class C02(L1Prop):
             return ka != kb or "REUSED-ID" in ri
         if op.kind == "dump":
             # a dump that differs right after an add_version
+            # (also: the first look at a directory the pinned release wrote, whose record ends with the versions it accepted)
             j = i - 1
             while j >= 0 and trace[j][0].startswith("dump "):
                 j -= 1
-            return j >= 0 and trace[j][0].startswith("av ")
+            return j >= 0 and trace[j][0].startswith(("av ", "mark fixture-loaded"))
         return False
     def oracle(self, case, trace, backend):
         fails = []
